@@ -73,7 +73,7 @@ Fixpoint parse_all (fuel : nat) (bs : bytes) (acc : list value) : option (list v
   match fuel with
   | O => None
   | S f => match bs with
-           | [] => Some (rev acc)
+           | [] => Some (rev_append acc [])
            | _ => match parse1 bs with Some (v, r) => parse_all f r (v :: acc) | None => None end
            end
   end.
